@@ -112,6 +112,12 @@ cdef class LegacyRecordBatch:
         return self._main_record.offset + 1
 
     def validate_crc(self):
+        # Iterating a compressed batch replaces the buffer by the decompressed
+        # message set: the checksum no longer applies to it (and a payload
+        # shorter than the header made the length below wrap around).
+        assert self._decompressed == 0, \
+            "Validate should be called before iteration"
+
         cdef:
             unsigned long crc = 0
             char * buf
